@@ -348,9 +348,9 @@ CAUSES = [
     # parse_sequel() takes only the token 'void' + ')' for an empty parameter list; cparser any type that
     # resolves to void
     ("sole_void_typedef_param", ("c_rejects", "different_type")),
-    # parse_complete() looks for _Complex directly after float/double; qualifiers are skipped only in the
-    # modifier loop before the base keyword
-    ("qual_before_complex", ("c_rejects",)),
+    # ('float const _Complex', a qualifier between the base keyword and _Complex, used to be a cause here: the C
+    #  parser looked for _Complex directly after float/double.  Repaired in /repo by 6d2defe: the feature is still
+    #  counted, but it no longer explains a disagreement)
     # Parser.include() copies _int_constants (so the in-line FFI knows the enumerators of an included anonymous
     # enum) but skips the 'anonymous' declarations, so the including module has no global for them
     ("anon_enumerator_from_included_ffi", ("c_rejects",)),
